@@ -166,3 +166,21 @@ package db
 
 //@ func (*prefixDBIterator).Close(itr) (err)
 //@   summary
+
+// Next: moves the parent cursor; the iterator stays valid only if the parent is
+// still valid and now stands on a key that starts with the prefix
+//@ func (*prefixDBIterator).Next(itr)
+//@   props C18
+//@   nosafety
+//@   requires itr != nil && itr.source != nil
+//@   ensures [inside-namespace] itr.valid ==> itvalid[itr.source] && len(itr.prefix) <= len(itkeyS[itr.source]) && forall(i, imp(0 <= i && i < len(itr.prefix), at(itkeyS[itr.source], i) == at(itr.prefix, i)))
+//@   ensures [no-revival] itr.valid ==> old(itr.valid)
+//@   modifies *
+
+// Key: the parent key without the prefix
+//@ func (*prefixDBIterator).Key(itr) (k)
+//@   props C18
+//@   nosafety
+//@   requires itr != nil && itr.source != nil
+//@   ensures [stripped] len(k) == len(itkeyS[itr.source]) - len(itr.prefix) && forall(i, imp(0 <= i && i < len(k), at(k, i) == at(itkeyS[itr.source], len(itr.prefix) + i)))
+//@   modifies *
